@@ -91,6 +91,12 @@ pub fn run_event(input: &[u8], cuts: &[usize]) -> Result<Vec<TerminalEvent>, Fai
         _ => None,
     })?;
     agree("event", "transient-read-errors", &plain, &flaky, input, cuts)?;
+    let mut decoder = TTYEventDecoder::new();
+    let torn = run_into_torn(&mut decoder, "event", input, cuts, |e| match e {
+        surf_n_term::Error::IOError(e) => Some(e.kind()),
+        _ => None,
+    })?;
+    agree("event", "decode_into-with-error-inside-a-read", &plain, &torn, input, cuts)?;
     Ok(plain)
 }
 
@@ -104,6 +110,12 @@ pub fn run_command(input: &[u8], cuts: &[usize]) -> Result<Vec<TerminalCommand>,
         _ => None,
     })?;
     agree("command", "transient-read-errors", &plain, &flaky, input, cuts)?;
+    let mut decoder = TTYCommandDecoder::new();
+    let torn = run_into_torn(&mut decoder, "command", input, cuts, |e| match e {
+        surf_n_term::Error::IOError(e) => Some(e.kind()),
+        _ => None,
+    })?;
+    agree("command", "decode_into-with-error-inside-a-read", &plain, &torn, input, cuts)?;
     Ok(plain)
 }
 
@@ -158,6 +170,84 @@ impl std::io::BufRead for FlakyRead<'_> {
     fn consume(&mut self, amt: usize) {
         self.inner.consume(amt)
     }
+}
+
+/// reader over one chunk that delivers its first half, then fails once, then delivers the rest
+struct TornRead<'a> {
+    first: Cursor<&'a [u8]>,
+    second: Cursor<&'a [u8]>,
+    failed: bool,
+}
+
+impl std::io::Read for TornRead<'_> {
+    fn read(&mut self, buf: &mut [u8]) -> std::io::Result<usize> {
+        let data = std::io::BufRead::fill_buf(self)?;
+        let n = data.len().min(buf.len());
+        buf[..n].copy_from_slice(&data[..n]);
+        std::io::BufRead::consume(self, n);
+        Ok(n)
+    }
+}
+
+impl std::io::BufRead for TornRead<'_> {
+    fn fill_buf(&mut self) -> std::io::Result<&[u8]> {
+        if (self.first.position() as usize) < self.first.get_ref().len() {
+            return self.first.fill_buf();
+        }
+        if !self.failed {
+            self.failed = true;
+            return Err(std::io::ErrorKind::WouldBlock.into());
+        }
+        self.second.fill_buf()
+    }
+    fn consume(&mut self, amt: usize) {
+        if (self.first.position() as usize) < self.first.get_ref().len() {
+            self.first.consume(amt)
+        } else {
+            self.second.consume(amt)
+        }
+    }
+}
+
+/// `decode_into` per read, the read failing once in its middle; what was decoded before the error
+/// has been consumed from the reader, so it must have been handed out
+fn run_into_torn<D: Decoder>(
+    decoder: &mut D,
+    what: &str,
+    input: &[u8],
+    cuts: &[usize],
+    kind_of: impl Fn(&D::Error) -> Option<std::io::ErrorKind>,
+) -> Result<Vec<D::Item>, Fail>
+where
+    D::Error: std::fmt::Debug,
+{
+    let mut out = Vec::new();
+    for chunk in chunks(input, cuts) {
+        let (a, b) = chunk.split_at(chunk.len() / 2);
+        let mut reader = TornRead { first: Cursor::new(a), second: Cursor::new(b), failed: false };
+        let mut failures = 0;
+        let mut calls = 0;
+        loop {
+            calls += 1;
+            match decoder.decode_into(&mut reader, &mut out) {
+                // (a call ends when one buffer of the reader is used up: go on until the read is)
+                Ok(_) => {
+                    let done = reader.failed
+                        && (reader.first.position() as usize) == a.len()
+                        && (reader.second.position() as usize) == b.len();
+                    if done || calls > chunk.len() + 4 {
+                        break;
+                    }
+                }
+                Err(e) if kind_of(&e) == Some(std::io::ErrorKind::WouldBlock) && failures == 0 => failures += 1,
+                Err(e) => return Err(Fail::new(format!("{what}:decode-error"), format!("decode_into returned error {e:?}"))),
+            }
+        }
+        if out.len() > input.len() + 1 {
+            return Err(too_many(what, input.len()));
+        }
+    }
+    Ok(out)
 }
 
 fn run_flaky<D: Decoder>(
